@@ -10,6 +10,8 @@ import ZlModel.Generated.Registry
 import ZlModel.Registry
 import ZlModel.Codec
 import ZlModel.Ip
+import ZlModel.Rsa
+import ZlModel.Tld
 open Zl Zl.Proto
 
 namespace Zl.Driver
@@ -207,6 +209,56 @@ def opIp (kind : String) (fields : List String) : String :=
   | "ipcont", [w, v, p, xw, xv] => b2s (Net.contains ⟨⟨natOf w, natOf v⟩, natOf p⟩ ⟨natOf xw, natOf xv⟩)
   | _, _ => "bad-op"
 
+
+/-! ### RSA ops -/
+
+def rsaVerdict (name : String) (n e rounds : Nat) : String :=
+  let st (s : Status) := name ++ "=" ++ toString s
+  match name with
+  | "e_rsa_mod_less_than_2048_bits" => st (modLessThan 2048 n)
+  | "e_mp_modulus_must_be_2048_bits_or_more" => st (modLessThan 2048 n)
+  | "e_old_root_ca_rsa_mod_less_than_2048_bits" => st (modLessThan 2048 n)
+  | "e_old_sub_ca_rsa_mod_less_than_1024_bits" => st (modLessThan 1024 n)
+  | "e_old_sub_cert_rsa_mod_less_than_1024_bits" => st (modLessThan 1024 n)
+  | "e_cs_rsa_key_size" => st (modLessThan 3072 n)
+  | "e_mp_modulus_must_be_divisible_by_8" => st (modDiv8 n)
+  | "w_rsa_mod_not_odd" => st (modNotOdd n)
+  | "w_rsa_mod_factors_smaller_than_752" => st (modSmallFactor Generated.primes n)
+  | "e_rsa_public_exponent_not_odd" => st (expNotOdd e)
+  | "e_rsa_public_exponent_too_small" => st (expTooSmall e)
+  | "w_rsa_public_exponent_not_in_range" => st (expNotInRange e)
+  | "e_mp_exponent_cannot_be_one" => st (expIsOne e)
+  | "e_rsa_fermat_factorization" =>
+    match fermat n rounds with
+    | some (p, q) => name ++ "=6:" ++ toString p ++ ":" ++ toString q
+    | none => name ++ "=3"
+  | _ => name ++ "=unmodelled"
+
+def opRsa (fields : List String) : String :=
+  match fields with
+  | [n, e, r, names] => ";".intercalate ((names.splitOn ",").map (fun nm => rsaVerdict nm (natOf n) (natOf e) (natOf r)))
+  | _ => "bad-op"
+
+def opFermat (fields : List String) : String :=
+  match fields with
+  | [n, r] => match fermat (natOf n) (natOf r) with
+    | some (p, q) => toString p ++ ":" ++ toString q
+    | none => "none"
+  | _ => "bad-op"
+
+
+/-! ### TLD ops -/
+
+def intOf (s : String) : Int := s.toInt?.getD 0
+
+def opTld (kind : String) (fields : List String) : String :=
+  match kind, fields with
+  | "tld", [d, sec, nsec] => b2s (hasValidTLD ((unhexBytes d).getD []) ⟨intOf sec, natOf nsec⟩)
+  | "tldin", [l] => b2s (isInTLDMap ((unhexBytes l).getD []))
+  | "tldlint", [cn, ip, dns, sec] =>
+    toString (tldLint ((unhexBytes cn).getD []) (ip == "1") ((splitList dns ",").map (fun h => (unhexBytes h).getD [])) ⟨intOf sec, 0⟩)
+  | _, _ => "bad-op"
+
 def step (line : String) : String :=
   match line.splitOn "\t" with
   | "fw" :: rest => opFw rest
@@ -216,6 +268,11 @@ def step (line : String) : String :=
   | "ipgu" :: rest => opIp "ipgu" rest
   | "ipnet" :: rest => opIp "ipnet" rest
   | "ipcont" :: rest => opIp "ipcont" rest
+  | "rsa" :: rest => opRsa rest
+  | "fermat" :: rest => opFermat rest
+  | "tld" :: rest => opTld "tld" rest
+  | "tldin" :: rest => opTld "tldin" rest
+  | "tldlint" :: rest => opTld "tldlint" rest
   | "enc" :: rest => opEnc rest
   | "dec" :: rest => opDec rest
   | "src" :: rest => opSrc rest
